@@ -1,6 +1,7 @@
 package main
 
 import (
+	"bytes"
 	"context"
 	"encoding/json"
 	"errors"
@@ -267,6 +268,22 @@ func scenarioHTTPAPI(t *traceWriter, rng *rand.Rand) {
 				}
 				t.line("A %s kind=racedget id=%s states=%s accepted=%s => late=%d body=%s", s.id, hx([]byte(id)), s.statesOf(), acc, lateB, hx(bodyB))
 				break
+			}
+		}
+		// the same text cosigned again with other signature bytes (the log's line plus another party's line): the stored
+		// bytes change although tree head and text do not; a revalidating client must be told (probe before: validators
+		// are learned; probe after: they are used)
+		probe()
+		for _, ls := range lss {
+			if !ls.has || ls.cur == nil || ls.cur.virtual {
+				continue
+			}
+			if b, err := hexDecode(s.readState(ls.l.id)); err == nil {
+				if i := bytes.Index(b, []byte("\n\n")); i >= 0 {
+					cp := signNote(string(b[:i+1]), ls.l.key.signer, w.otherKey.signer)
+					res := s.update(ls.l.id, ls.curSize, cp, [][]byte{}, "class=api.sameTextRefresh")
+					ls.observe(res, ls.l.key.verif)
+				}
 			}
 		}
 		probe()
